@@ -7,7 +7,7 @@ import numpy as np
 import z3
 from common import *
 from irsym.harness import Harness, I, D, Buf
-from irsym import solver as S
+from irsym import solver as S, llparse as L
 
 PID = 'C12'
 CPP = 'c12.cpp'
@@ -40,8 +40,127 @@ def native_eval(h, d, v, order=1):
             'sorted': bool((np.diff(lam) >= -1e-12 * scale).all())}
 
 
+def glue_gsl(chk, h, solver, ctx, d, order):
+    n = d * d
+    re, im, xat, st_ = s2m_map(h, d, ctx)
+    a = sym_vec('a', n)
+    ex = h.executor()
+    log = []
+
+    def mat(ex_, st, A):
+        sz1, sz2, tda, data = [ex_.load(st, A + 8 * k, L.I64) for k in range(4)]
+        return sz1, sz2, tda, data
+
+    def ws_alloc(ex_, st, args, ins):
+        o = st.heap_alloc(16, 'malloc')
+        log.append(('alloc', args[0], o.base))
+        return o.base
+
+    def ws_free(ex_, st, args, ins):
+        log.append(('free', args[0]))
+        ex_.intr['free'](ex_, st, [args[0]], ins, 'free')
+        return None
+
+    def hermv(ex_, st, args, ins):
+        A, ev, evec, w = args
+        sz1, sz2, tda, data = mat(ex_, st, A)
+        vals = [[(ex_.load(st, data + 16 * (i * tda + j), L.DOUBLE), ex_.load(st, data + 16 * (i * tda + j) + 8, L.DOUBLE)) for j in range(sz2)] for i in range(sz1)]
+        evsz, evstride, evdata = ex_.load(st, ev, L.I64), ex_.load(st, ev + 8, L.I64), ex_.load(st, ev + 16, L.I64)
+        e1, e2, etda, edata = mat(ex_, st, evec)
+        log.append(('hermv', (sz1, sz2), evsz, (e1, e2), w, vals))
+        for i in range(evsz):
+            ex_.store(st, evdata + 8 * i * evstride, L.DOUBLE, T.var('L%d' % i))
+        for i in range(e1):
+            for j in range(e2):
+                ex_.store(st, edata + 16 * (i * etda + j), L.DOUBLE, T.var('Vr%d_%d' % (i, j)))
+                ex_.store(st, edata + 16 * (i * etda + j) + 8, L.DOUBLE, T.var('Vi%d_%d' % (i, j)))
+        return 0
+
+    def sort(ex_, st, args, ins):
+        ev, evec, typ = args
+        evsz, evstride, evdata = ex_.load(st, ev, L.I64), ex_.load(st, ev + 8, L.I64), ex_.load(st, ev + 16, L.I64)
+        e1, e2, etda, edata = mat(ex_, st, evec)
+        before = [ex_.load(st, evdata + 8 * i * evstride, L.DOUBLE) for i in range(evsz)]
+        log.append(('sort', typ, evsz, (e1, e2), before))
+        for i in range(evsz):
+            ex_.store(st, evdata + 8 * i * evstride, L.DOUBLE, T.var('sL%d' % i))
+        for i in range(e1):
+            for j in range(e2):
+                ex_.store(st, edata + 16 * (i * etda + j), L.DOUBLE, T.var('sVr%d_%d' % (i, j)))
+                ex_.store(st, edata + 16 * (i * etda + j) + 8, L.DOUBLE, T.var('sVi%d_%d' % (i, j)))
+        return 0
+    ex.summaries.update({'gsl_eigen_hermv_alloc': ws_alloc, 'gsl_eigen_hermv_free': ws_free, 'gsl_eigen_hermv': hermv, 'gsl_eigen_hermv_sort': sort})
+    ps = h.run('h_eigen', [I(d), I(order), Buf('a', a), Buf('lam', n=d), Buf('vre', n=n), Buf('vim', n=n)], ex=ex)
+    chk.note_exec(ex)
+    name = 'GetEigenSystem(order=%s), d=%d, GSL path under a contract stub of gsl_eigen_hermv' % (bool(order), d)
+    problems = []
+    if len(ps) != 1 or ps[0].status != 'ok' or ps[0].ret != 0:
+        problems.append('ends in %r' % [(p.status, p.ret, (p.info or {}).get('msg')) for p in ps][:2])
+    else:
+        p = ps[0]
+        calls = [e[0] for e in log]
+        want = ['alloc', 'hermv', 'free'] + (['sort'] if order else [])
+        if calls != want:
+            problems.append('GSL call sequence is %r, expected %r' % (calls, want))
+        else:
+            al, hv, fr = log[0], log[1], log[2]
+            if al[1] != d:
+                problems.append('workspace allocated for order %r' % (al[1],))
+            if hv[1] != (d, d) or hv[2] != d or hv[3] != (d, d) or hv[4] != al[2] or fr[1] != al[2]:
+                problems.append('containers/workspace handed to gsl_eigen_hermv have the wrong shape or identity: %r' % (hv[1:5],))
+            else:
+                pa = [ctx.poly(x) for x in a]
+                M = apply_map(re, im, xat, pa, d)
+                res = Residual(solver, ctx, box=1, tol=Fraction(1, 10 ** 13))
+                polys = []
+                for i in range(d):
+                    for j in range(d):
+                        polys.append(ctx.poly(hv[5][i][j][0]) - M[i][j][0])
+                        polys.append(ctx.poly(hv[5][i][j][1]) - M[i][j][1])
+                r = res.relax_query(polys, 'matrix handed to gsl_eigen_hermv = S2M(vector), d=%d (all components symbolic)' % d)
+                if r != 'unsat':
+                    problems.append('the matrix handed to gsl_eigen_hermv is not the matrix the vector represents')
+            if order and (log[3][1] != 0 or log[3][2] != d or log[3][3] != (d, d) or any(log[3][4][i] is not T.var('L%d' % i) for i in range(d))):
+                problems.append('gsl_eigen_hermv_sort is not called with (eigenvalues, eigenvectors, ascending) as written by gsl_eigen_hermv')
+            pre = 's' if order else ''
+            lam, vre, vim = p.out('lam'), p.out('vre'), p.out('vim')
+            if any(lam[i] is not T.var('%sL%d' % (pre, i)) for i in range(d)) or any(vre[i * d + j] is not T.var('%sVr%d_%d' % (pre, i, j)) or vim[i * d + j] is not T.var('%sVi%d_%d' % (pre, i, j)) for i in range(d) for j in range(d)):
+                problems.append('the caller does not receive what the GSL routine wrote')
+            left = [(o.kind, o.size) for o in p.state.live_heap(('new[]', 'new', 'malloc'))]
+            if left:
+                problems.append('allocations not released after the result is destroyed: %r' % left[:4])
+            ab = p.out('a')
+            if any(ab[k] is not a[k] for k in range(n)):
+                problems.append('the vector was modified')
+    if problems:
+        chk.candidates_glue.append({'d': d, 'order': order, 'what': '%s: %s' % (name, '; '.join(problems))})
+    else:
+        chk.cov['witnesses']['reachability'] += 1
+        chk.obligation(name + ': matrix = S2M(vector), shapes and workspace of order d, workspace released, result = what GSL wrote (sorted when requested), vector unmodified, no leak', 'holds')
+
+
+def glue_replay(h, c):
+    """native: eigen-decompose random dense matrices of that dimension (and a sequence of dimensions); any invalid result or crash reproduces"""
+    rng = np.random.RandomState(7)
+    d = c['d']
+    for trial in range(4):
+        X = rng.randn(d, d) + 1j * rng.randn(d, d)
+        Hd = X + X.conj().T
+        Gd = gellmann(d)
+        Bd = [np.array([[float(Gd[k][i][j][0]) + 1j * float(Gd[k][i][j][1]) for j in range(d)] for i in range(d)]) for k in range(d * d)]
+        v = np.array([(np.trace(Hd @ Bd[k]).real / (d if k == 0 else 2.0)) for k in range(d * d)])
+        try:
+            res = native_eval(h, d, v, order=c['order'])
+        except Exception as e:
+            return True, 'native crash: %s' % str(e)[:100]
+        if not (res['finite'] and res['residual'] < 1e-9 and res['unitarity'] < 1e-9 and (res.get('sorted', True) or not c['order'])):
+            return True, repr(res)
+    return False, 'valid eigensystems natively'
+
+
 def main(tier):
     chk = Check(PID, tier)
+    chk.candidates_glue = []
     solver = S.Solver(timeout_ms=4000)
     h = Harness(CPP, LIBS, solver=solver)
     d, n = 3, 9
@@ -54,9 +173,9 @@ def main(tier):
     ps = h.run('h_eigen', [I(3), I(0), Buf('a', a), Buf('lam', n=3), Buf('vre', n=9), Buf('vim', n=9)], ex=ex)
     chk.note_exec(ex)
     chk.cov['functions_encoded'] = FUNCS
-    chk.cov['bounds'] = {'dimension': '3 only (closed form); all 9 components symbolic', 'clause': 'finiteness: zero divisors whose value is a polynomial in the inputs, and zero bases of pow/sqrt/cbrt atoms appearing in divisors'}
+    chk.cov['bounds'] = {'dimension': '3 (closed form, all 9 components symbolic); 2,4,5,6: only the glue around gsl_eigen_hermv, all components symbolic, order requested and not', 'clause': 'finiteness: zero divisors whose value is a polynomial in the inputs, and zero bases of pow/sqrt/cbrt atoms appearing in divisors'}
     chk.cov['domains'] = ['R (exact reals); sqrt/cbrt/pow/carg/clog/cexp as uninterpreted atoms']
-    chk.cov['stubs'] = ['clog/carg/cpow: uninterpreted', 'gsl_eigen_hermv_sort not executed (order=false) -- the sort is GSL\'s', 'GSL containers: shim']
+    chk.cov['stubs'] = ['gsl_eigen_hermv_alloc/free/hermv/hermv_sort: contract stubs (arguments checked and logged, results = fresh symbols) for the d != 3 glue obligation', 'clog/carg/cpow: uninterpreted', 'gsl_eigen_hermv_sort not executed (order=false) -- the sort is GSL\'s', 'GSL containers: shim']
     chk.assumptions = ['OUTSIDE THE TECHNIQUE: dimensions 2,4,5,6 (gsl_eigen_hermv is compiled, iterative floating point); the residual identity M V = V diag(L), unitarity of V and accuracy for (near-)degenerate spectra in dimension 3 (needs reasoning about complex roots and cancellation) -- these are exercised by a native battery of structured matrices and REPORTED, not decided by the solver',
                        'divisors containing uninterpreted atoms are examined only through the zero set of the polynomial base of their pow/sqrt/cbrt atoms']
     cands = []
@@ -110,6 +229,14 @@ def main(tier):
             chk.obligation('solver input for vanishing %s (%s): the real code still returns a valid finite eigensystem' % (c['what'], c['term'][:60]), 'benign')
     for key, c in classes.items():
         chk.report(key, 'GetEigenSystem of a 3x3 operator with %s = 0 (%s) returns %s' % (c['term'][:80], c['what'], 'non-finite values' if not c['native']['finite'] else 'an invalid eigensystem %r' % c['native']), c)
+    # ---- the GSL path (d = 2,4,5,6): gsl_eigen_hermv itself is opaque, but the glue around it is decided symbolically under a contract stub:
+    # the matrix handed over is S2M(vector), containers and workspace have the vector's dimension, the workspace is released, what the
+    # routine (and the sort, when requested) writes is what the caller receives, the vector is not modified, nothing leaks.
+    ctx = PolyCtx()
+    for dd in (2, 4, 5, 6):
+        for order in (0, 1):
+            glue_gsl(chk, h, solver, ctx, dd, order)
+    chk.note_solver(solver)
     # native battery (NOT solver-decided; reported so that the evidence is honest about what was looked at)
     G = gellmann(3)
     B = [np.array([[float(G[k][i][j][0]) + 1j * float(G[k][i][j][1]) for j in range(3)] for i in range(3)]) for k in range(9)]
@@ -179,6 +306,15 @@ print(json.dumps(out))
     if hist_bad:
         chk.report('eigen:native-battery:history', 'GetEigenSystem: %s [found by the native battery, not by the solver]' % hist_bad, {'sequence': seq})
     chk.cov['native_battery'] = rep
+    for c in chk.candidates_glue:
+        ok, info = glue_replay(h, c)
+        chk.cov['replayed'] += 1
+        if ok:
+            chk.report('eigen-gsl-glue:d=%d:order=%d' % (c['d'], c['order']), '%s; native: %s' % (c['what'], info), c)
+        elif hist_bad:
+            chk.report('eigen-gsl-glue:d=%d:order=%d' % (c['d'], c['order']), '%s; native confirmation by the call sequence of dimensions %r on one thread: %s' % (c['what'], seq, hist_bad), c)
+        else:
+            chk.broken_q('glue candidate did not reproduce natively: %s' % c['what'][:300])
     return chk.finish()
 
 
